@@ -900,7 +900,7 @@ Section Main.
           [ apply Hst
           | apply full_low; [ exact (He Hwe) | exact Hc3 | exact Hc4 ]
           | ].
-        cbn [skip_optional cur]. rewrite Hc2. apply PLi_nil. exact Hc1.
+        unfold skip_optional. cbn [cur]. rewrite Hc2. apply PLi_nil. exact Hc1.
       + rewrite <- app_assoc. rewrite <- app_comm_cons.
         eapply PLi_cons;
           [ apply Hst
@@ -1112,7 +1112,7 @@ Section Main.
   Proof.
     intros e IHe Hwf rest. rewrite wf_sexpr in Hwf. rewrite print_stmt_expr.
     rewrite <- app_assoc. cbn [app].
-    apply PSt_expr; [ apply first_tok; exact Hwf | ].
+    apply PSt_expr; [ apply (first_tok show_f fok e Hwf) | ].
     apply full_low; [ exact (IHe Hwf) | reflexivity | reflexivity ].
   Qed.
 
@@ -1193,3 +1193,197 @@ Section Main.
     apply PPr_print; [ | exact Hwf ]. apply Forall_forall. intros s _. exact (HS s).
   Qed.
 End Main.
+
+(** * 7. The theorem of C07 at token level *)
+
+(* every float literal admitted, under the oracle hypothesis that show_f is read back by parse_f64 *)
+Theorem parse_print : forall pf show_f b,
+  wf_tree b = true -> (forall x, pf (show_f x) = Some x) ->
+  exists fuel, parse_program pf fuel (print_program show_f b) = Ok b.
+Proof.
+  intros pf show_f b Hwf Hf.
+  destruct (parse_print_gen pf show_f (fun _ => true) (fun x _ => Hf x) b Hwf) as [n Hn].
+  exists n. apply Hn. lia.
+Qed.
+
+(* ... and for every larger fuel (this is also a direct consequence of ParserFuel) *)
+Theorem parse_print_all_fuel : forall pf show_f b,
+  wf_tree b = true -> (forall x, pf (show_f x) = Some x) ->
+  exists fuel, forall fuel', (fuel <= fuel')%nat ->
+    parse_program pf fuel' (print_program show_f b) = Ok b.
+Proof.
+  intros pf show_f b Hwf Hf.
+  exact (parse_print_gen pf show_f (fun _ => true) (fun x _ => Hf x) b Hwf).
+Qed.
+
+Theorem parse_print_fuel_mono : forall pf show_f b fuel fuel',
+  parse_program pf fuel (print_program show_f b) = Ok b -> (fuel <= fuel')%nat ->
+  parse_program pf fuel' (print_program show_f b) = Ok b.
+Proof.
+  intros pf show_f b fuel fuel' H Hle.
+  apply (parse_program_fuel_mono pf fuel fuel' _ _ H); [ discriminate | exact Hle ].
+Qed.
+
+(* trees without float literals: no hypothesis on the oracle at all *)
+Theorem parse_print_nofloat : forall pf show_f b,
+  wf_tree_nofloat b = true ->
+  exists fuel, forall fuel', (fuel <= fuel')%nat ->
+    parse_program pf fuel' (print_program show_f b) = Ok b.
+Proof.
+  intros pf show_f b Hwf.
+  refine (parse_print_gen pf show_f (fun _ => false) _ b Hwf). intros x Hx. discriminate Hx.
+Qed.
+
+(* the bridge to Parser.parse_tokens: whoever shows that the fixed fuel of parse_tokens is never
+   exhausted (proofs/ParserTermination.v) gets parse_tokens (print b) = Ok b *)
+Theorem parse_tokens_print_gen : forall pf show_f fok b,
+  (forall x, fok x = true -> pf (show_f x) = Some x) ->
+  wf_tree_gen fok b = true ->
+  parse_tokens pf (print_program show_f b) <> OutOfFuel ->
+  parse_tokens pf (print_program show_f b) = Ok b.
+Proof.
+  intros pf show_f fok b Hf Hwf Hno.
+  destruct (parse_print_gen pf show_f fok Hf b Hwf) as [n Hn].
+  unfold parse_tokens in *.
+  apply (parse_program_fuel_agree pf _ n _ _ (Ok b) eq_refl (Hn n (le_n n)) Hno).
+  discriminate.
+Qed.
+
+(** * 8. What the property names: precedence, associativity *)
+
+(* the rank of an infix operator, through its token and the generated tables *)
+Definition op_rank (o : operator) : nat := tok_rank (infix_tok o).
+
+(* * / %  >  + -  >  < <= > >=  >  == !=  >  && ||  >  =  ; calls and indexing above all of them *)
+Theorem precedence_documented :
+  op_rank OpMultiply = op_rank OpDivide /\ op_rank OpDivide = op_rank OpModulo /\
+  (op_rank OpAdd < op_rank OpModulo)%nat /\
+  op_rank OpAdd = op_rank OpSubtract /\
+  (op_rank OpLt < op_rank OpAdd)%nat /\
+  op_rank OpLt = op_rank OpLte /\ op_rank OpLte = op_rank OpGt /\ op_rank OpGt = op_rank OpGte /\
+  (op_rank OpEq < op_rank OpLt)%nat /\
+  op_rank OpEq = op_rank OpNeq /\
+  (op_rank OpAnd < op_rank OpEq)%nat /\
+  op_rank OpAnd = op_rank OpOr /\
+  (tok_rank KAssign < op_rank OpAnd)%nat /\
+  (0 < tok_rank KAssign)%nat /\
+  (forall o, is_infix_op o = true -> (op_rank o < tok_rank KOpenParen)%nat) /\
+  (forall o, is_infix_op o = true -> (op_rank o < tok_rank KOpenBracket)%nat) /\
+  (tok_rank KOpenBracket < inf_rank)%nat /\ (tok_rank KOpenParen < inf_rank)%nat.
+Proof.
+  repeat split; try (vm_compute; lia);
+    intros o H; destruct o; try discriminate H; vm_compute; lia.
+Qed.
+
+(* the thirteen infix operators are exactly those with an infix token *)
+Theorem infix_operators :
+  forall o, is_infix_op o = true <->
+    In o [OpAdd; OpSubtract; OpMultiply; OpDivide; OpModulo; OpLt; OpLte; OpGt; OpGte; OpEq; OpNeq;
+          OpAnd; OpOr].
+Proof.
+  intro o. split.
+  - intro H. destruct o; try discriminate H; cbn [In]; tauto.
+  - intro H. cbn [In] in H.
+    repeat (destruct H as [H | H]; [ subst o; reflexivity | ]). contradiction.
+Qed.
+
+Section Shapes.
+  Variable pf : text -> option float.
+
+  Definition sf0 : float -> text := fun _ => [].
+
+  (* `a o1 b o2 c` between three identifiers: how it is read depends only on the two ranks *)
+  Lemma three_idents : forall o1 o2 a b c rest,
+    is_infix_op o1 = true -> is_infix_op o2 = true -> follow PLowest rest ->
+    exists n, forall fuel, (n <= fuel)%nat ->
+      parse_expr pf fuel PLowest
+        (TIdent a :: TFix (infix_tok o1) :: TIdent b :: TFix (infix_tok o2) :: TIdent c :: rest)
+      = Ok (if (op_rank o1 <? op_rank o2)%nat
+            then EInfix (EIdent a) o1 (EInfix (EIdent b) o2 (EIdent c))
+            else EInfix (EInfix (EIdent a) o1 (EIdent b)) o2 (EIdent c), rest).
+  Proof.
+    intros o1 o2 a b c rest H1 H2 Hf.
+    set (e := if (op_rank o1 <? op_rank o2)%nat
+              then EInfix (EIdent a) o1 (EInfix (EIdent b) o2 (EIdent c))
+              else EInfix (EInfix (EIdent a) o1 (EIdent b)) o2 (EIdent c)).
+    assert (Hwf : wf_expr (fun _ => false) e = true).
+    { subst e. destruct (op_rank o1 <? op_rank o2)%nat;
+        rewrite !wf_infix; rewrite H1, H2; reflexivity. }
+    assert (Hpr : print_expr sf0 PLowest PLowest e =
+                  [TIdent a; TFix (infix_tok o1); TIdent b; TFix (infix_tok o2); TIdent c]).
+    { subst e. destruct o1; try discriminate H1; destruct o2; try discriminate H2; reflexivity. }
+    assert (Hfok : forall x, (fun _ : float => false) x = true -> pf (sf0 x) = Some x)
+      by (intros x Hx; discriminate Hx).
+    destruct (parse_print_expr pf sf0 (fun _ => false) Hfok e PLowest PLowest rest Hwf p_ok_lowest Hf
+                (le_n _)) as [n Hn].
+    exists n. intros fuel Hle. specialize (Hn fuel Hle). rewrite Hpr in Hn. exact Hn.
+  Qed.
+
+  (* operators of equal rank associate to the left *)
+  Theorem left_assoc : forall o1 o2 a b c rest,
+    is_infix_op o1 = true -> is_infix_op o2 = true -> op_rank o1 = op_rank o2 ->
+    follow PLowest rest ->
+    exists n, forall fuel, (n <= fuel)%nat ->
+      parse_expr pf fuel PLowest
+        (TIdent a :: TFix (infix_tok o1) :: TIdent b :: TFix (infix_tok o2) :: TIdent c :: rest)
+      = Ok (EInfix (EInfix (EIdent a) o1 (EIdent b)) o2 (EIdent c), rest).
+  Proof.
+    intros o1 o2 a b c rest H1 H2 Heq Hf.
+    destruct (three_idents o1 o2 a b c rest H1 H2 Hf) as [n Hn]. exists n.
+    intros fuel Hle. rewrite (Hn fuel Hle).
+    assert (E : (op_rank o1 <? op_rank o2)%nat = false) by (apply Nat.ltb_ge; lia).
+    rewrite E. reflexivity.
+  Qed.
+
+  (* the operator of higher rank binds tighter, whichever side it is on *)
+  Theorem higher_binds_tighter : forall o1 o2 a b c rest,
+    is_infix_op o1 = true -> is_infix_op o2 = true -> follow PLowest rest ->
+    ((op_rank o1 < op_rank o2)%nat ->
+     exists n, forall fuel, (n <= fuel)%nat ->
+       parse_expr pf fuel PLowest
+         (TIdent a :: TFix (infix_tok o1) :: TIdent b :: TFix (infix_tok o2) :: TIdent c :: rest)
+       = Ok (EInfix (EIdent a) o1 (EInfix (EIdent b) o2 (EIdent c)), rest)) /\
+    ((op_rank o2 < op_rank o1)%nat ->
+     exists n, forall fuel, (n <= fuel)%nat ->
+       parse_expr pf fuel PLowest
+         (TIdent a :: TFix (infix_tok o1) :: TIdent b :: TFix (infix_tok o2) :: TIdent c :: rest)
+       = Ok (EInfix (EInfix (EIdent a) o1 (EIdent b)) o2 (EIdent c), rest)).
+  Proof.
+    intros o1 o2 a b c rest H1 H2 Hf.
+    destruct (three_idents o1 o2 a b c rest H1 H2 Hf) as [n Hn]. split; intro Hlt.
+    - exists n. intros fuel Hle. rewrite (Hn fuel Hle).
+      assert (E : (op_rank o1 <? op_rank o2)%nat = true) by (apply Nat.ltb_lt; exact Hlt).
+      rewrite E. reflexivity.
+    - exists n. intros fuel Hle. rewrite (Hn fuel Hle).
+      assert (E : (op_rank o1 <? op_rank o2)%nat = false) by (apply Nat.ltb_ge; lia).
+      rewrite E. reflexivity.
+  Qed.
+
+  (* the prefix quirk: the operand of a prefix operator is read with the operator token's infix
+     rank, so `- a * b` is -(a * b) and `! a == b` is !(a == b), while `- a + b` is (-a) + b *)
+  Theorem prefix_quirk : forall a b rest, follow PLowest rest ->
+    (exists n, forall fuel, (n <= fuel)%nat ->
+       parse_expr pf fuel PLowest (TFix KMinus :: TIdent a :: TFix KStar :: TIdent b :: rest)
+       = Ok (EPrefix OpSubtract (EInfix (EIdent a) OpMultiply (EIdent b)), rest)) /\
+    (exists n, forall fuel, (n <= fuel)%nat ->
+       parse_expr pf fuel PLowest (TFix KMinus :: TIdent a :: TFix KPlus :: TIdent b :: rest)
+       = Ok (EInfix (EPrefix OpSubtract (EIdent a)) OpAdd (EIdent b), rest)) /\
+    (exists n, forall fuel, (n <= fuel)%nat ->
+       parse_expr pf fuel PLowest (TFix KBang :: TIdent a :: TFix KEq :: TIdent b :: rest)
+       = Ok (EPrefix OpNot (EInfix (EIdent a) OpEq (EIdent b)), rest)).
+  Proof.
+    intros a b rest Hf.
+    assert (Hfok : forall x, (fun _ : float => false) x = true -> pf (sf0 x) = Some x)
+      by (intros x Hx; discriminate Hx).
+    repeat split.
+    - exact (parse_print_expr pf sf0 (fun _ => false) Hfok
+               (EPrefix OpSubtract (EInfix (EIdent a) OpMultiply (EIdent b)))
+               PLowest PLowest rest eq_refl p_ok_lowest Hf (le_n _)).
+    - exact (parse_print_expr pf sf0 (fun _ => false) Hfok
+               (EInfix (EPrefix OpSubtract (EIdent a)) OpAdd (EIdent b))
+               PLowest PLowest rest eq_refl p_ok_lowest Hf (le_n _)).
+    - exact (parse_print_expr pf sf0 (fun _ => false) Hfok
+               (EPrefix OpNot (EInfix (EIdent a) OpEq (EIdent b)))
+               PLowest PLowest rest eq_refl p_ok_lowest Hf (le_n _)).
+  Qed.
+End Shapes.
